@@ -164,23 +164,86 @@ def check(run, repo):
             x0 = cap.get('x0')
             run.check(isinstance(x0, ListV) and len(x0) == ns, 'DATAFLOW.solver-args', 'Equilibrium.get_net_comp',
                       label + ' x0', 'initial guess does not have one entry per species', owner.module, fn)
-    # __init__: feed totals use the final element matrix
-    o5, f5 = repo.find_method(ci, '__init__')
-    last_M = None
-    feed_stmt = None
-    for st in ast.walk(f5):
-        if isinstance(st, ast.Assign):
-            for t in st.targets:
-                if isinstance(t, ast.Attribute) and isinstance(t.value, ast.Name) and t.value.id == 'self':
-                    if t.attr == 'mol_elem':
-                        last_M = st if last_M is None or st.lineno > last_M.lineno else last_M
-                    if t.attr == 'ele_feed':
-                        feed_stmt = st
-    ok = last_M is not None and feed_stmt is not None and feed_stmt.lineno > last_M.lineno and \
-        'self.mol_elem' in norm(feed_stmt.value) and '.dot(' in norm(feed_stmt.value)
-    run.check(ok, 'ORDER.feed-totals', 'Equilibrium.__init__', 'ele_feed after mol_elem',
-              'the feed element totals must be computed as feed.dot(self.mol_elem) after the last assignment to '
-              'self.mol_elem (same matrix as the constraint uses)', o5.module, f5)
+    constructor(run, repo)
+
+
+NETWORKS = [
+    ('1 element', [('O2', {'O': 2}), ('O3', {'O': 3}), ('O', {'O': 1})]),
+    ('2 elements', [('N2', {'N': 2}), ('H2', {'H': 2}), ('NH3', {'N': 1, 'H': 3})]),
+    ('3 elements', [('CO', {'C': 1, 'O': 1}), ('CO2', {'C': 1, 'O': 2}), ('H2', {'H': 2}), ('H2O', {'H': 2, 'O': 1}),
+                    ('CH4', {'C': 1, 'H': 4})]),
+    ('4 elements', [('HCN', {'H': 1, 'C': 1, 'N': 1}), ('N2', {'N': 2}), ('H2O', {'H': 2, 'O': 1}),
+                    ('CO', {'C': 1, 'O': 1}), ('NH3', {'N': 1, 'H': 3})]),
+    ('2 elements, 2 species', [('H2', {'H': 2}), ('HF', {'H': 1, 'F': 1})]),
+]
+
+
+def constructor(run, repo):
+    """Equilibrium.__init__ interpreted for concrete compositions and symbolic feeds: element list, element matrix,
+    feed totals and molar masses for networks over 1-4 elements, in both species orders"""
+    from ..fold import fold_value, fold_num
+    ci = repo.cls(EQ)
+    owner, fn = repo.find_method(ci, '__init__')
+    cm = repo.module('pmutt.constants')
+    node = cm.assigns.get('atomic_weight', [None])[-1]
+    if not isinstance(node, ast.Dict):
+        raise AnchorError('pmutt.constants.atomic_weight not found')
+    aw = {fold_value(cm, k): fold_num(cm, v).v for k, v in zip(node.keys, node.values)}
+    n = 0
+    for label, net in NETWORKS:
+        for rev in (False, True):
+            order = list(reversed(net)) if rev else list(net)
+            I = Interp(repo, max_depth=10)
+            D = I.D
+            model = DictV()
+            network = DictV()
+            for nm, comp in order:
+                sp = opaque_obj(I, nm, {'get_GoRT': ('T',)})
+                sp.attrs['elements'] = DictV({e: C(k) for e, k in comp.items()})
+                sp.attrs['name'] = nm
+                model.d[nm] = sp
+                network.d[nm] = D.sym('feed_' + nm)
+            eq = Obj('eq', ci, closed=True)
+            key = '%s%s' % (label, ', reversed' if rev else '')
+            r = I.call_method(eq, '__init__', [], {'model': model, 'network': network})
+            n += 1
+            if isinstance(r, Raised):
+                run.fail('REF.constructor', 'Equilibrium.__init__', label,
+                         '[%s] building the problem for species %s raises %s' % (key, [x for x, _ in order], r.exc),
+                         owner.module, r.node if getattr(r, 'node', None) is not None else fn)
+                continue
+            els = []
+            for _, comp in order:
+                for e in comp:
+                    if e not in els:
+                        els.append(e)
+            got_el = eq.attrs.get('elements')
+            got_M = eq.attrs.get('mol_elem')
+            got_F = eq.attrs.get('ele_feed')
+            got_W = eq.attrs.get('species_mw')
+            ok = isinstance(got_el, ListV) and [I.plain(x) for x in got_el.items] == els
+            run.check(ok, 'REF.constructor', 'Equilibrium.__init__', label + ' elements',
+                      '[%s] element list is %s, expected %s' % (key, show(got_el, 80), els), owner.module, fn)
+            if not ok:
+                continue
+            okM = isinstance(got_M, ListV) and len(got_M) == len(order) and all(
+                isinstance(row, ListV) and len(row) == len(els) and
+                all(isinstance(v, Rat) and v.eq(C(comp.get(e, 0))) for v, e in zip(row.items, els))
+                for row, (_, comp) in zip(got_M.items, order))
+            run.check(okM, 'REF.constructor', 'Equilibrium.__init__', label + ' element matrix',
+                      '[%s] element matrix is %s' % (key, show(got_M, 160)), owner.module, fn,
+                      sample='[%s] mol_elem[i][j] == atoms of element j in species i' % key)
+            want_F = [sum((D.sym('feed_' + nm) * comp.get(e, 0) for nm, comp in order), C(0)) for e in els]
+            okF = isinstance(got_F, ListV) and len(got_F) == len(els) and all(
+                isinstance(v, Rat) and v.eq(w) for v, w in zip(got_F.items, want_F))
+            run.check(okF, 'REF.constructor', 'Equilibrium.__init__', label + ' feed totals',
+                      '[%s] feed element totals are %s' % (key, show(got_F, 160)), owner.module, fn)
+            want_W = [sum((Fr(comp.get(e, 0)) * aw[e] for e in els), Fr(0)) for _, comp in order]
+            okW = isinstance(got_W, ListV) and len(got_W) == len(order) and all(
+                isinstance(v, Rat) and v.eq(C(w)) for v, w in zip(got_W.items, want_W))
+            run.check(okW, 'REF.constructor', 'Equilibrium.__init__', label + ' molar masses',
+                      '[%s] species molar masses are %s' % (key, show(got_W, 160)), owner.module, fn)
+    run.floor('constructor networks', n, 8)
 
 
 E_ = 'pmutt/equilibrium/_equilibrium.py'
